@@ -1071,8 +1071,11 @@ class parser(object):
         val_is_ampm = True
 
         # If there's already an AM/PM flag, this one isn't one.
-        if fuzzy and ampm is not None:
-            val_is_ampm = False
+        if ampm is not None:
+            if fuzzy:
+                val_is_ampm = False
+            else:
+                raise ValueError('AM or PM flag specified more than once.')
 
         # If AM/PM is found and hour is not, raise a ValueError
         if hour is None:
